@@ -104,3 +104,18 @@ func findFuncLits(n ast.Node) []*ast.FuncLit {
 	})
 	return out
 }
+
+// returnsOfLit lists the return statements of a function literal (not of nested literals).
+func returnsOfLit(lit *ast.FuncLit) []*ast.ReturnStmt {
+	var out []*ast.ReturnStmt
+	ast.Inspect(lit.Body, func(n ast.Node) bool {
+		if fl, ok := n.(*ast.FuncLit); ok && fl != lit {
+			return false
+		}
+		if rs, ok := n.(*ast.ReturnStmt); ok {
+			out = append(out, rs)
+		}
+		return true
+	})
+	return out
+}
